@@ -246,7 +246,7 @@ int ref_pq_write(ref_arena* a, const ref_write_req* rq, ref_buf* out, ref_pagein
                 if (!L->v2) {
                     ref_buf body; ref_buf_init(&body); ref_buf_put(&body, rep.p, rep.n); ref_buf_put(&body, def.p, def.n); ref_buf_put(&body, val.p, val.n);
                     if (ref_compress(L->codec, body.p, body.n, &comp)) return -2; unc = body.n; ref_buf_free(&body);
-                    h.type = 0; h.has_dph = true; h.dph.num_values = (int32_t)pl; h.dph.encoding = L->value_encoding; h.dph.def_enc = h.dph.rep_enc = L->level_encoding == ENC_BIT_PACKED ? ENC_BIT_PACKED : ENC_RLE;
+                    h.type = 0; h.has_dph = true; h.dph.num_values = (int32_t)pl; h.dph.encoding = L->value_encoding; h.dph.def_enc = h.dph.rep_enc = L->level_encoding == ENC_BIT_PACKED ? ENC_BIT_PACKED : ENC_RLE; if (L->absent_levels_bit_packed) { if (c->max_def == 0) h.dph.def_enc = ENC_BIT_PACKED; if (c->max_rep == 0) h.dph.rep_enc = ENC_BIT_PACKED; }
                     if (L->page_stats) { h.dph.has_stats = true; h.dph.stats = *L->page_stats; }
                 } else {
                     ref_buf_put(&comp, rep.p, rep.n); ref_buf_put(&comp, def.p, def.n); if (ref_compress(L->codec, val.p, val.n, &comp)) return -2; unc = rep.n + def.n + val.n;
